@@ -244,7 +244,18 @@ inductive Inner
   | viaWrappedHelper     -- undecorated method whose only native calls go through a decorated method
   | handConverted        -- undecorated; `except OSError: raise convert_oserror(err, pid, name)` by hand
   | bare                 -- undecorated generator; the call is outside its hand-written `try`
+  | probeSaysNo          -- the call is `os.path.exists/isfile/islink`: its stat() failed, the OSError is swallowed there
+                         -- and the answer is False; the method leaves that ONE path out (an fd link, a candidate
+                         -- executable) and carries on
+  | pid0PsinfoGate       -- Solaris `_proc_basic_info`, PID 0: `os.path.exists(/proc/0/psinfo)` answers False (also when
+                         -- its stat() failed) → `raise AccessDenied(self.pid, self._name)`
   deriving DecidableEq, Repr
+
+/-- the Solaris methods that read the psinfo record through `_proc_basic_info()` (which, for PID 0, first
+    asks `os.path.exists(<procfs>/0/psinfo)`); `uids`/`gids` reach it on their fall-back path only -/
+def sunosBasicInfoMethods : List String :=
+  ["create_time", "memory_full_info", "memory_info", "nice_get", "num_threads", "ppid", "status", "terminal",
+   "uids", "gids"]
 
 /-- which handler a native call sits under, per platform / method / callee.
     Source: the `try` statements of the five modules (hand transcription; the translator pins the
@@ -263,9 +274,12 @@ def inner (cfg : Cfg) (p : Platform) (meth call : String) : Inner :=
     else if meth == "terminal" && call == "os.readlink" then .enoentAbsorbed
     else if (meth == "cwd" || meth == "open_files" || meth == "memory_maps") && call == "os.readlink" then .enoentThenAlive
     else if meth == "threads" && call == "query_process_thread" then .enoentThenAlive
+    else if call == "os.path.exists" && sunosBasicInfoMethods.contains meth then .pid0PsinfoGate
+    else if meth == "open_files" && call == "os.path.islink" then .probeSaysNo
     else .escapes
   | .aix =>
     if meth == "cwd" && call == "os.readlink" then .enoentThenAlive
+    else if meth == "exe" && call == "os.path.isfile" then .probeSaysNo
     else if meth == "io_counters" && call == "proc_io_counters" then .goneThenNsp
     else .escapes
   | .windows =>
@@ -280,6 +294,17 @@ def inner (cfg : Cfg) (p : Platform) (meth call : String) : Inner :=
     -- `ppid`: its only handler is `except KeyError`; an OSError leaves the body and meets the
     -- decorator if the method has one (`escape`), nothing otherwise
     else .escapes
+
+/-- every place where a METHOD (no fault, an empty native answer, or its alternative path after a first
+    fault) asks a yes/no question through `os.path.exists/isfile/islink` — a stat() whose failure the
+    method can never see — with what the method does when the answer is "no" (the transcription above).
+    `Props` proves the generated traces contain exactly these (identity, method, question) triples: a
+    re-check or any other OS query that is moved behind such a question is noticed. -/
+def pathProbeSites (p : Platform) : List (String × String) :=
+  match p with
+  | .sunos => (sunosBasicInfoMethods.map fun m => (m, "os.path.exists")) ++ [("open_files", "os.path.islink")]
+  | .aix => [("exe", "os.path.isfile")]
+  | _ => []
 
 /-- (module, method) pairs that contain an OSError-capable handler according to this
     transcription; `Props` proves it equals the translator's list. -/
@@ -358,6 +383,8 @@ def bodyWith (cfg : Cfg) (p : Platform) (i : Inner) (e : Err) (env : Env) (persi
   | .viaWrappedHelper => .settled (wrapExceptions cfg f e env)
   | .handConverted => .settled (convertOserror cfg.win e env.pid)
   | .bare => .settled (.raw e)
+  | .probeSaysNo => .settled .value
+  | .pid0PsinfoGate => .settled (.ad env.pid cfg.sunosPid0Named)
 
 def body (cfg : Cfg) (p : Platform) (m : Method) (call : String) (e : Err) (env : Env)
     (persistent : Bool) : Body :=
